@@ -102,7 +102,7 @@ func runCrashProperty(t *rapid.T, pc crashProgCfg) {
 		acts["write4"], acts["write5"], acts["commit2"] = acts["write"], acts["write"], acts["commit"]
 	} else {
 		for _, k := range []string{"create", "create2", "mkdir", "write", "write2", "write3", "symlink", "read", "setattr", "setattr2",
-			"remove", "remove2", "rmdir", "rename", "rename2", "commit", "lookup", "readdirplus"} {
+			"remove", "remove2", "rmdir", "rename", "rename2", "movedir", "commit", "lookup", "readdirplus"} {
 			acts[k] = wrap(base[k])
 		}
 	}
